@@ -89,6 +89,7 @@ func (e *Engine) VerifyFunction(fn *ssa.Function, fc *FuncContract) (res *FnResu
 
 func (fv *FnVerifier) run() {
 	fn := fv.fn
+	fv.prescanElemPtrs()
 	st := &State{heap: map[string]string{}, locks: map[string]string{}}
 	a0 := fv.q.declareConst("alloc0", "Int")
 	fv.q.assume("(> alloc0 0)")
@@ -144,6 +145,9 @@ func (fv *FnVerifier) run() {
 	}
 	for _, h := range fv.fc.HoldsR {
 		st.locks[fv.lockKeyFromSpec(h)] = "1"
+	}
+	for k, v := range st.locks {
+		fv.entry.locks[k] = v
 	}
 	fv.probe("pre-sat", "", "")
 
@@ -448,6 +452,9 @@ func (fv *FnVerifier) keysOfAddr(v ssa.Value) []string {
 		// interior?
 		if inner := fv.rootOfAddr(x.X); inner != nil {
 			return inner
+		}
+		if fv.isMatType(pt) {
+			return []string{fv.fieldKey(pt, stt, x.Field), fv.elemsKey(pt)}
 		}
 		return []string{fv.fieldKey(pt, stt, x.Field)}
 	case *ssa.IndexAddr:
